@@ -266,8 +266,14 @@ Fixpoint names_loop (ch : str) (items : list str) (b : bot) : bot * bool :=
   | item :: rest =>
       if isUserHostmask item then
         match splitHostmask item with
-        | Some (name, _, _) =>
-            names_loop ch rest (chan_upd ch (addUser name) (n2h_set name name b))
+        | Some (name, user, host) =>
+            (* userhost-in-names: the real hostmask is stored under the bare nick *)
+            let nick := lstrip gen.T10.SIGILS_353 name in
+            let b' := match nick with
+                      | [] => b
+                      | _ => n2h_set nick (joinHostmask nick user host) b
+                      end in
+            names_loop ch rest (chan_upd ch (addUser name) b')
         | None => (b, false)
         end
       else names_loop ch rest (chan_upd ch (addUser item) b)
@@ -399,17 +405,17 @@ Definition st_doNick (m : msg) (b : bot) : bot :=
   | [] => b
   | newNick :: _ =>
       let oldNick := msg_nick m in
-      let step1 :=
+      let b1 := set_n2h b (idict_del oldNick (b_n2h b)) in          (* del first; KeyError: pass *)
+      let step2 :=
         if nonempty (msg_user m) && nonempty (msg_host m) then
           match newNick with
           | [] => None                                   (* joinHostmask: AssertionError *)
-          | _ => Some (n2h_set newNick (joinHostmask newNick (msg_user m) (msg_host m)) b)
+          | _ => Some (n2h_set newNick (joinHostmask newNick (msg_user m) (msg_host m)) b1)
           end
-        else Some b in
-      match step1 with
-      | None => b
-      | Some b1 =>
-          let b2 := set_n2h b1 (idict_del oldNick (b_n2h b1)) in    (* del; KeyError: pass *)
+        else Some b1 in
+      match step2 with
+      | None => b1
+      | Some b2 =>
           set_chans b2 (map (fun kc => (fst kc, replaceUser oldNick newNick (snd kc))) (b_chans b2))
       end
   end.
